@@ -34,7 +34,7 @@ pub fn check(property: &str) -> Option<CheckDef> {
             assumptions: vec![
                 "the reference model and the IFT encoder are written from the specification and the table layouts, calibrated once against the unchanged tree",
                 "patches carry brotli streams made of uncompressed meta-blocks, decoded by the real C decoder; dictionary-dependent diffs are therefore not exercised",
-                "carriers: glyf/loca short and long, gvar short and long; CFF/CFF2 carriers are not generated",
+                "carriers: glyf/loca short and long, gvar short and long, CFF and CFF2 charstrings INDEXes with offset sizes 1-4 (worlds sized at and around the offset-size limits); the charstrings offset of a CFF/CFF2 font is taken from the IFT table only (calibrated: a CFF glyph patch on a font without IFT table is a predicted error)",
             ],
         }),
         "C19" => Some(CheckDef {
